@@ -201,9 +201,12 @@ class TreeGen:
 class Renderer:
     """text of an abstract tree under random layout choices; records `_line` of every token"""
 
-    def __init__(self, rng, layout=1.0, comment_quotes=False, off_regions=True, exotic=0.0):
+    def __init__(self, rng, layout=1.0, comment_quotes=False, off_regions=True, exotic=0.0, spread=0.0):
         self.rng = rng
         self.exotic = exotic  # probability, per layout decision, of whitespace other than blank / TAB / LF (EXOTIC_WS, CR LF)
+        # probability, per word of a value, of a backslash continuation in front of it - also in front of the FIRST word, so
+        # that a value starts on a later line than its name (`a = \<LF>  v`); draws nothing when 0
+        self.spread = spread
         self.p = layout
         self.comment_quotes = comment_quotes
         self.off_regions = off_regions
@@ -321,7 +324,7 @@ class Renderer:
         return out + q
 
     def value_words(self, words, first_line_token):
-        """emit the words of a value; the first word must be on the line of the name"""
+        """emit the words of a value; the first word is on the line of the name unless a continuation precedes it (`spread`)"""
         r = self.rng
         last_start_line = self.line()
         prev = None
@@ -330,6 +333,12 @@ class Renderer:
             text = w["v"] if w["q"] is None else (pyquote(w["q"], w["v"]) if later_unquoted else self.quoted(w["q"], w["v"]))
             if i == 0:
                 self.sp()
+                if self.spread and r.random() < self.spread:
+                    self.features.add("value_starts_on_continuation_line")
+                    self.emit(r.choice(["\\\n", "\\\n   ", "\\\n\t", "\\ \n  "]))
+            elif self.spread and last_start_line == self.line() and r.random() < self.spread:
+                self.features.add("backslash_continuation")
+                self.emit(r.choice([" \\\n", " \\\n   ", "\t\\\n\t", " \\  \n "]))
             else:
                 quoted = w["q"] is not None
                 same_line_ok = last_start_line == self.line()  # previous word did not span lines
